@@ -524,6 +524,74 @@ def floatOps : NumOps UInt64 where
   eq a b :=
     !Ieee.isNaNBits a && !Ieee.isNaNBits b && (a == b || (Ieee.isZeroBits a && Ieee.isZeroBits b))
 
+/-! ## the generators' own entry points
+
+`utils::write_number` / `utils::write_string` / `utils::write_interpolated_string_segment` are
+shared helpers; what ends up in the output is decided by each generator's `write_number`,
+`write_string`, `write_interpolated_string`. These wrappers state the arm structure of those
+methods (the blanks the `push_*` primitives may put BEFORE a piece are layout, not literal text). -/
+
+/-- dense.rs `DenseLuaGenerator::write_number`: its own arms for NaN, the infinities, hexadecimal
+and binary nodes; `utils::write_number` for every other decimal. -/
+def denseWriteNumber {F : Type} (ops : NumOps F) : NumLit F → List UInt8
+  | .decimal x exponent =>
+    if ops.isNaN x then [40] ++ [48] ++ [47] ++ [48] ++ [41]              -- push_char × 5
+    else if ops.isInf x then
+      [40] ++ (if ops.signNeg x then [45] else []) ++ [49] ++ [47] ++ [48] ++ [41]
+    else writeNumber ops (.decimal x exponent)
+  | .hex n exponent ux =>
+    [48, if ux then 88 else 120] ++ fmtHex n ++
+      (match exponent with
+       | some (e, up) => [if up then 80 else 112] ++ fmtInt e
+       | none => [])
+  | .binary n ub => [48, if ub then 66 else 98] ++ fmtBin n
+
+/-- readable.rs `ReadableLuaGenerator::write_number` -/
+def readableWriteNumber {F : Type} (ops : NumOps F) (lit : NumLit F) : List UInt8 :=
+  writeNumber ops lit
+
+/-- token_based.rs `write_number` for a node without token (`Token::from_content(utils::write_number(..))`) -/
+def tokenBasedWriteNumber {F : Type} (ops : NumOps F) (lit : NumLit F) : List UInt8 :=
+  writeNumber ops lit
+
+/-- the three generators -/
+inductive Gen where
+  | dense | readable | tokenBased
+  deriving DecidableEq, Repr
+
+/-- the number text generator `g` writes for a (token-less) node -/
+def genWriteNumber {F : Type} (ops : NumOps F) : Gen → NumLit F → List UInt8
+  | .dense => denseWriteNumber ops
+  | .readable => readableWriteNumber ops
+  | .tokenBased => tokenBasedWriteNumber ops
+
+/-- dense.rs / readable.rs `write_string`: `utils::write_string`, and for the long-bracket form
+`push_str_and_break_if(result, break_long_string)`: a blank (space or new line) goes first when
+the last pushed piece ends with `[`. `lastPush` is that piece. (token_based.rs writes the same
+text through `write_symbol`.) -/
+def generatorWriteString (lastPush : List UInt8) (v : List UInt8) : List UInt8 :=
+  let result := writeString v
+  if result.head? == some 91 then
+    (if lastPush.getLast? == some 91 then [32] else []) ++ result
+  else result
+
+/-- a piece of an interpolated string: literal bytes, or the text written for a `{value}` -/
+inductive InterpPart where
+  | str (value : List UInt8)
+  | val (exprText : List UInt8)
+  deriving DecidableEq, Repr
+
+/-- dense.rs / readable.rs / token_based.rs `write_interpolated_string`: backtick, then per
+segment `write_interpolated_string_segment` or `{` expression `}`, backtick. (The expression
+text is whatever `write_expression` wrote, including the blank dense/readable put after `{`
+before a table constructor.) -/
+def interpPartText : InterpPart → List UInt8
+  | .str v => writeInterpSegment v
+  | .val t => [123] ++ t ++ [125]
+
+def writeInterpolatedString (parts : List InterpPart) : List UInt8 :=
+  [96] ++ parts.flatMap interpPartText ++ [96]
+
 /-! ## nodes/expressions/mod.rs `impl From<f64> for Expression` -/
 
 /-- the little expression trees `Expression::from(f64)` builds -/
